@@ -67,6 +67,7 @@ func Ghost_nremoveReq(h *Hub) int              { return ghost_nremoveReq(h) }
 // RemoveListener / AddListener / Dispatch / Delete only queue an operation.
 //@ func (*Hub).RemoveListener
 //@   requires Spec_hubOpen(hub)
+//@   modifies allof(ghost_nsent)
 //@   attr log-count=ghost_nremoveReq
 //@   serves C15
 
